@@ -3,17 +3,27 @@ driving debian._deb822_repro, projection of the real document back to model form
 
 API surface (notes/API_SURFACE.md): every public way of performing the operations of C05 / C10
   entry point / variant                                             exercised by
-  parse_deb822_file(list of str / list of bytes / iterator /        parse(): rotating per replay (lts legs), str lines in
-      text file object / binary file object)                            recorded histories
+  parse_deb822_file(list of str / list of bytes / iterator or       parse(): rotating per replay (lts legs) AND per recorded
+      generator of str / bytes lines / io.StringIO / io.BytesIO /       history (trace leg): FORMS, counted in
+      real file text, binary buffered, binary unbuffered /              ctx.extra["file_object_kinds"]; line ends of the start
+      BufferedReader over a short-read raw stream / GzipFile /          document steered to offsets 2^k-1, 2^k, 2^k+1 (k = 9..17,
+      BZ2File / LZMAFile / gzip text wrapper /                          bytes or code points) on a share of the concretizations
+      SpooledTemporaryFile binary and text)                             (Conc.align, ctx.extra["aligned_cases"])
   Deb822FileElement.new_empty_file()                                 run_path() for the empty start document (config E)
   p[k], p[(k, i)], p.get(k), p.get(k, default),                      apply_edge "get": rotating per call; every case variant of k
       p.configured_view()[k], `k in p`, len(p), iteration             (check_state reads all occurrences under three spellings)
   p[k] = v, p[(k, i)] = v, p.update({k: v}), p.setdefault(k, v)      apply_edge "set": rotating per call (setdefault only for an
       (absent k), set_field_to_simple_value,                          absent field, where it is an assignment)
       set_field_from_raw_string
+  the same setters with a value they REJECT (ValueError,             apply_edge "set" with the model blob BAD (bad_value(): pool of
+      nothing may change - C05)                                        texts that are not deb822 syntax for one field), C05 legs
   del p[k], del p[(k, i)], p.pop(k), remove_kvpair_element           apply_edge "del": rotating per call
   order_first / order_last / order_before / order_after              apply_edge, keys in any case variant, indexed and unindexed
-  sort_fields(), sort_fields(key=None), sort_fields(key=callable)    apply_edge "sort": rotating per call
+  sort_fields(), sort_fields(key=None), sort_fields(key=str.lower)   apply_edge "sort": rotating per call
+  sort_fields(key=f) / sort_fields(f) with an ARBITRARY key          apply_edge "sortby" (model action SortBy, key table kt): keys
+      function ("same semantics as for sorted": stable sort of           WITH TIES (two-valued, constant, buckets, one name first /
+      the current order), keys returning int / tuple / str               last) and without (reversed), after any history of moves,
+                                                                         sorts and edits; both paragraph classes; lts + trace legs
   Deb822FileElement.insert / append with a paragraph from            apply_edge "insert"/"append": rotating per call
       new_empty_paragraph()+item assignment or from_dict()
   dump(), dump(fd), convert_to_text(), iteration over paragraphs,    check_state after every (deep) step; a fresh parse of the dump
@@ -27,6 +37,7 @@ import json
 WORDS = ["Architecture", "Build-Depends", "Depends", "Homepage", "Maintainer", "Package",
          "Section", "Source", "Uploaders", "Vcs-Git", "X-Custom", "Zz-Top"]
 NEWS, NEWM, NEWSEP = 101, 102, 100
+BAD = 103       # model blob of a value the setters reject (ReproDoc.BadV)
 
 
 def spelled(base, s):
@@ -60,6 +71,31 @@ def value_layouts(rng, tag, final_nl=True):
         cont = "".join(" c%d-%s\n" % (i, w) for i in range(n))
         opts = opts + [(" %s\n" % long1, long1)] * 3 + [(" %s\n%s" % (w, cont), ("%s\n%s" % (w, cont))[:-1])] * 3
     return opts
+
+
+def tracks_nl(doc):
+    """does this model document carry the optional attribute nl (text of the field ends in a newline)?"""
+    return any("nl" in f for part in doc if part["t"] == "p" for f in part["fs"])
+
+
+def bad_value(k):
+    """concretization of the model blob BAD: (value for the dict interface / setdefault / update /
+    set_field_to_simple_value, text for set_field_from_raw_string, None).  Every entry is rejected
+    by documented behaviour: it is not deb822 syntax for ONE field (continuation line without
+    leading blank, empty or blank-only line inside the value, another field's line, a comment as
+    the last line), the raw text may also just lack its final newline."""
+    if k is None:
+        return ("bad\nnot-indented", " bad\nnot-indented\n", None)
+    import random
+    r = random.Random(k)
+    api = r.choice(["b%d\nnot-indented", "b%d\n\n after-empty-line", "b%d\n \n after-blank-line", "b%d\n\t\n x",
+                    "b%d\n cont\n# last line is a comment", "b%d\nOther-Field: x", "b%d \u00e9\n cont\nlate",
+                    "\n cont-%d\nlate", "b%d\n# c\nnot-indented", "b%d\n " + "c" * 300 + "\nlate"]) % k
+    first, rest = api.split("\n", 1)
+    raw = " " + first.strip() + "\n" + rest + "\n"
+    if r.random() < 0.25:
+        raw = r.choice([" r%d", " r%d\n cont", "r%d\n\n"]) % k      # no final newline / empty line at the end
+    return (api, raw, None)
 
 
 class Conc:
@@ -126,10 +162,53 @@ class Conc:
             first, rest = m_in.split("\n", 1)
             self.new = {NEWS: (s_in, " " + s_in.strip() + "\n", s_in.strip()),
                         NEWM: (m_in, " " + first.strip() + "\n" + rest + "\n", first.strip() + "\n" + rest)}
+        self.new[BAD] = bad_value(None if canonical else k)
         # does the document end without a newline?  only possible when it ends in a paragraph
         if final_newline is None:
             final_newline = canonical or rng.random() < 0.5
+        if tracks_nl(start_doc):      # the model document says which field lacks its newline (attribute nl)
+            final_newline = True
         self.final_newline = final_newline or not last_para_is_last
+        self.aligned = None
+        if not canonical and start_doc and rng.random() < 0.06:
+            self.align(rng, start_doc)
+
+    def align(self, rng, start_doc):
+        """SIZE_STRESS part 4: pad the first line of the value of one original field so that a line
+        end further down - inside a value, between two fields, at a separator or a paragraph
+        boundary, at the very end of the document - falls at offset 2^k - 1, 2^k or 2^k + 1 of the
+        start text, counted in UTF-8 bytes or in code points.  The model document is unchanged
+        (the blob just has a longer text)."""
+        blobs = [f["v"] for part in start_doc if part["t"] == "p" for f in part["fs"]]
+        if not blobs:
+            return
+        v = rng.choice(blobs[:2])
+        w = "v%s" % v
+        text, rb = self.val[v]
+        if w not in text or w not in rb:
+            return
+        marker = "\x00PAD\x00"
+        self.val[v] = (text.replace(w, w + marker, 1), rb)
+        t = self.start_text(start_doc)
+        self.val[v] = (text, rb)
+        at = t.index(marker)
+        t = t.replace(marker, "")
+        unit = rng.choice(["bytes", "chars"])
+        measure = (lambda x: len(x.encode("utf-8"))) if unit == "bytes" else len
+        ends = [i + 1 for i in range(at, len(t)) if t[i] == "\n"]
+        if not t.endswith("\n"):
+            ends.append(len(t))
+        if not ends:
+            return
+        end = rng.choice(ends + [ends[-1]] * 2 + [ends[0]])
+        k = rng.choice([9, 10, 11, 12, 12, 13, 13, 13, 14, 15, 16, 16, 17])
+        delta = rng.choice([-1, 0, 0, 1])
+        pad = (1 << k) + delta - measure(t[:end])
+        if pad <= 0:
+            return
+        self.val[v] = (text.replace(w, w + "y" * pad, 1), rb.replace(w, w + "y" * pad, 1))
+        where = "end-of-document" if end == ends[-1] else ("padded-line" if end == ends[0] else "inner-line")
+        self.aligned = {"offset": "2^%d%+d" % (k, delta), "unit": unit, "line_end": where}
 
     # ---- texts
     def value_text(self, v):
@@ -139,7 +218,10 @@ class Conc:
         return self.new[v][2] if v in self.new else self.val[v][1]
 
     def inst_text(self, f):
-        return self.cmt[f["c"]] + spelled(self.base[f["n"]], f["s"]) + ":" + self.value_text(f["v"])
+        t = self.cmt[f["c"]] + spelled(self.base[f["n"]], f["s"]) + ":" + self.value_text(f["v"])
+        if f.get("nl") is False and t.endswith("\n"):      # a field whose text does not end in a newline
+            t = t[:-1]
+        return t
 
     def doc_text(self, doc):
         out = []
@@ -167,7 +249,7 @@ class Conc:
                 "cmt": {str(k): v for k, v in self.cmt.items()},
                 "sep": {str(k): v for k, v in self.sep.items()},
                 "new": {str(k): list(v) for k, v in self.new.items()},
-                "final_newline": self.final_newline}
+                "final_newline": self.final_newline, "aligned": self.aligned}
 
     @classmethod
     def from_json(cls, j):
@@ -178,30 +260,145 @@ class Conc:
         c.sep = {int(k): v for k, v in j["sep"].items()}
         c.new = {int(k): tuple(v) for k, v in j["new"].items()}
         c.final_newline = j["final_newline"]
+        c.aligned = j.get("aligned")
         return c
 
 
 # ------------------------------------------------------------------ the real thing
 
-def parse(text, rng=None):
-    """API surface: the same text is handed over as a list of str lines, a list of bytes lines, an
-    iterator, or a text / binary file object"""
+WORKDIR = None      # scratch directory for real files (ctx.work; set by the legs before forking workers)
+FORMS = ["list-str", "list-bytes", "iter-str", "StringIO", "BytesIO", "gen-str", "gen-bytes",
+         "file-text", "file-binary", "file-unbuffered", "short-read-BufferedReader", "GzipFile",
+         "BZ2File", "LZMAFile", "gzip-text", "Spooled-binary", "Spooled-text"]
+
+
+def split_lines(text):
+    """lines with their line ends, split at \\n only (never str.splitlines: SIZE_STRESS part 3)"""
+    parts = text.split("\n")
+    lines = [x + "\n" for x in parts[:-1]]
+    if parts[-1]:
+        lines.append(parts[-1])
+    return lines
+
+
+def _short_reader(data, rng):
+    """io.BufferedReader over a raw stream that hands out 1..7 bytes per read call"""
     import io
+    import random
+    r = random.Random(rng.getrandbits(30))
+
+    class Raw(io.RawIOBase):
+        def __init__(self):
+            self.pos = 0
+
+        def readable(self):
+            return True
+
+        def readinto(self, b):
+            n = min(len(b), r.randint(1, 7), len(data) - self.pos)
+            b[:n] = data[self.pos:self.pos + n]
+            self.pos += n
+            return n
+    return io.BufferedReader(Raw(), buffer_size=rng.choice([16, 512, 8192]))
+
+
+def open_source(text, form, rng):
+    """(source object handed to the parser, list of things to close afterwards)"""
+    import io
+    import os
+    import tempfile
+    kind = FORMS[form]
+    lines = split_lines(text)
+    data = text.encode("utf-8")
+    if kind == "list-str":
+        return lines, []
+    if kind == "list-bytes":
+        return [l.encode("utf-8") for l in lines], []
+    if kind == "iter-str":
+        return iter(lines), []
+    if kind == "StringIO":
+        return io.StringIO(text), []
+    if kind == "BytesIO":
+        return io.BytesIO(data), []
+    if kind == "gen-str":
+        return (l for l in lines), []
+    if kind == "gen-bytes":
+        return (l.encode("utf-8") for l in lines), []
+    if kind in ("file-text", "file-binary", "file-unbuffered"):
+        fd, path = tempfile.mkstemp(prefix="doc-", dir=WORKDIR)
+        with os.fdopen(fd, "wb") as out:
+            out.write(data)
+        if kind == "file-text":
+            fo = open(path, "r", encoding="utf-8", newline="\n")
+        elif kind == "file-binary":
+            fo = open(path, "rb")
+        else:
+            fo = open(path, "rb", buffering=0)
+        os.unlink(path)
+        return fo, [fo]
+    if kind == "short-read-BufferedReader":
+        fo = _short_reader(data, rng)
+        return fo, [fo]
+    def stored(blob):
+        # compressed bytes in memory, or in a real file (then fileno() names the COMPRESSED file)
+        if rng.random() < 0.5:
+            return io.BytesIO(blob)
+        fd, path = tempfile.mkstemp(prefix="doc-", dir=WORKDIR)
+        with os.fdopen(fd, "wb") as out:
+            out.write(blob)
+        raw = open(path, "rb")
+        os.unlink(path)
+        return raw
+    if kind in ("GzipFile", "gzip-text"):
+        import gzip
+        raw = stored(gzip.compress(data, 1))
+        fo = gzip.GzipFile(fileobj=raw, mode="rb")
+        if kind == "gzip-text":
+            tw = io.TextIOWrapper(fo, encoding="utf-8", newline="\n")
+            return tw, [tw, raw]
+        return fo, [fo, raw]
+    if kind == "BZ2File":
+        import bz2
+        raw = stored(bz2.compress(data, 1))
+        fo = bz2.BZ2File(raw)
+        return fo, [fo, raw]
+    if kind == "LZMAFile":
+        import lzma
+        raw = stored(lzma.compress(data, preset=0))
+        fo = lzma.LZMAFile(raw)
+        return fo, [fo, raw]
+    if kind == "Spooled-binary":
+        fo = tempfile.SpooledTemporaryFile(max_size=rng.choice([64, 1 << 20]), mode="w+b", dir=WORKDIR)
+        fo.write(data)
+        fo.seek(0)
+        return fo, [fo]
+    if kind == "Spooled-text":
+        fo = tempfile.SpooledTemporaryFile(max_size=rng.choice([64, 1 << 20]), mode="w+", encoding="utf-8",
+                                           newline="\n", dir=WORKDIR)
+        fo.write(text)
+        fo.seek(0)
+        return fo, [fo]
+    raise AssertionError(kind)
+
+
+def parse(text, rng=None, info=None):
+    """API surface / SIZE_STRESS part 4: the same text is handed over as a list of str or bytes lines,
+    an iterator / generator, or one of the kinds of text / binary file objects in FORMS (the expected
+    document does not depend on the form; the form is recorded in info for the evidence)"""
     from debian._deb822_repro import parse_deb822_file
-    form = rng.randrange(5) if rng is not None else 0
-    lines = text.splitlines(True)
-    if form == 1:
-        src = [l.encode("utf-8") for l in lines]
-    elif form == 2:
-        src = iter(lines)
-    elif form == 3:
-        src = io.StringIO(text)
-    elif form == 4:
-        src = io.BytesIO(text.encode("utf-8"))
-    else:
-        src = lines
-    return parse_deb822_file(src, accept_files_with_duplicated_fields=True,
-                             accept_files_with_error_tokens=True)
+    form = rng.randrange(len(FORMS)) if rng is not None else 0
+    if info is not None:
+        info["form"] = FORMS[form]
+    src, closers = open_source(text, form, rng)
+    try:
+        return parse_deb822_file(src, accept_files_with_duplicated_fields=True,
+                                 accept_files_with_error_tokens=True)
+    finally:
+        for c in closers:
+            try:
+                c.close()
+            except Exception:
+                pass
 
 
 def new_paragraph(conc, n, rng=None):
@@ -211,6 +408,19 @@ def new_paragraph(conc, n, rng=None):
     q = Deb822ParagraphElement.new_empty_paragraph()
     q[spelled(conc.base[n], "U")] = conc.new[NEWS][0]
     return q
+
+
+def key_function(conc, kt, variant=0):
+    """the Python key function for the model's key table kt (kt[n - 1] = key of the name of rank n):
+    it sees the field name in whatever spelling the paragraph hands out; the keys are ints, 1-tuples
+    or zero-padded strings (same order)"""
+    rank = {b.lower(): n for n, b in conc.base.items()}
+
+    def kf(name):
+        n = rank.get(str(name).lower(), 0)
+        k = kt[n - 1] if 1 <= n <= len(kt) else 0
+        return k if variant == 0 else ((k,) if variant == 1 else "%06d" % k)
+    return kf
 
 
 def apply_edge(f, e, conc, rng):
@@ -263,6 +473,9 @@ def apply_edge(f, e, conc, rng):
                 p.update({key: conc.new[a[3]][0]})
             elif v == 2 and a[3] == NEWS:
                 p.set_field_to_simple_value(key, conc.new[NEWS][0])
+            elif v == 2 and a[3] == BAD and "\n" in conc.new[BAD][0].strip() and (
+                    i < 0 or p.get_kvpair_element(key, use_get=True) is not None):
+                p.set_field_to_simple_value(key, conc.new[BAD][0])      # documented: ValueError (newline)
             else:
                 # the raw-string setter takes the exact text after the colon; a lookup error of the
                 # dict interface for an invalid (name, i) is raised by __setitem__'s own lookup
@@ -295,6 +508,12 @@ def apply_edge(f, e, conc, rng):
                 p.sort_fields(key=None)
             else:
                 p.sort_fields(key=lambda x: x.lower())
+        elif op == "sortby":
+            kf = key_function(conc, a[1], pick(3))
+            if pick(2):
+                p.sort_fields(key=kf)
+            else:
+                p.sort_fields(kf)
         else:
             raise AssertionError(op)
         return "ok"
@@ -320,6 +539,8 @@ def outcome_matches(model_res, real):
         return real in ("KeyError", "IndexError")
     if model_res == "KeyOrValueError":
         return real in ("KeyError", "ValueError")
+    if model_res == "LookupOrValueError":    # rejected value AND unusable key: which error comes first is unspecified
+        return real in ("KeyError", "IndexError", "ValueError")
     return None   # a value: compared by the caller
 
 
@@ -448,11 +669,11 @@ def weak_check(text, mparas, model_doc, conc):
     return None
 
 
-def run_path(start_doc, path, conc, rng, deep_every=1, drifts=None):
+def run_path(start_doc, path, conc, rng, deep_every=1, drifts=None, info=None):
     """replay one model behaviour from a start document; None or a message"""
     text = conc.start_text(start_doc)
     if start_doc:
-        f = parse(text, rng)
+        f = parse(text, rng, info)
     else:
         from debian._deb822_repro.parsing import Deb822FileElement
         f = Deb822FileElement.new_empty_file()
@@ -482,14 +703,21 @@ def run_path(start_doc, path, conc, rng, deep_every=1, drifts=None):
 
 # ------------------------------------------------------------------ projection for trace validation
 
-def project(f, conc, rank):
-    """real document -> model form (ids looked up by text); unknown text gets id 999"""
+def project(f, conc, rank, nl=False):
+    """real document -> model form (ids looked up by text); unknown text gets id 999;
+    nl: also report for every field whether its text ends in a newline (attribute nl of ReproDoc)"""
     vt = {}
     for vid, (t, _) in conc.val.items():
         vt[t] = vid
         vt[t.rstrip("\n")] = vid
+    def norm(t):      # a value text up to the blanks around its first line (= the value as read back)
+        first, nlc, rest = t.partition("\n")
+        return first.strip() + nlc + rest
+    vn = {}           # the exact formatting of a newly written value is not part of the statements
     for vid, (_, t, _) in conc.new.items():
-        vt[t] = vid
+        if vid != BAD:
+            vt[t] = vid
+            vn[norm(t)] = vid
     ct = {t: cid for cid, t in conc.cmt.items()}
     st = {t: sid for sid, t in conc.sep.items()}
     doc = []
@@ -518,7 +746,12 @@ def project(f, conc, rank):
                 s = "U" if name == base else ("L" if name == base.lower() else "?")
                 c = kv.comment_element.convert_to_text() if kv.comment_element is not None else ""
                 vtext = kv.value_element.convert_to_text()
-                fs.append({"n": n, "s": s, "v": vt.get(vtext, 999), "c": ct.get(c, 999)})
+                vid = vt.get(vtext)
+                if vid is None:
+                    vid = vn.get(norm(vtext), 999)
+                fs.append({"n": n, "s": s, "v": vid, "c": ct.get(c, 999)})
+                if nl:
+                    fs[-1]["nl"] = kv.convert_to_text().endswith("\n")
             doc.append({"t": "p", "dup": type(part).__name__ == "Deb822DuplicateFieldsParagraphElement", "fs": fs, "id": 0})
         else:
             pending += part.convert_to_text()
@@ -528,8 +761,10 @@ def project(f, conc, rank):
 
 # ------------------------------------------------------------------ recording histories (code -> spec)
 
-def random_start_doc(rng, nnames=5):
-    """a random document in model form: 1..3 paragraphs, duplicates in some, comments, separators"""
+def random_start_doc(rng, nnames=5, nl=False):
+    """a random document in model form: 1..3 paragraphs, duplicates in some, comments, separators;
+    nl: every field carries the attribute nl, and a document that ends in a paragraph has (2 of 3)
+    no final newline: nl = False on its very last field"""
     doc = []
     vid = [0]
     sid = [0]
@@ -556,21 +791,33 @@ def random_start_doc(rng, nnames=5):
         fs = []
         for n in names:
             vid[0] += 1
+            if vid[0] == 100:       # 100..199 are the model's blobs of separators / written / rejected values
+                vid[0] = 200
             fs.append({"n": n, "s": rng.choice("UL"), "v": vid[0], "c": vid[0] if rng.random() < 0.35 else 0})
         doc.append({"t": "p", "dup": dup, "fs": fs, "id": 0})
         if pi < npar - 1 or rng.random() < 0.3:
             doc.append(sep())
+    if nl:
+        for part in doc:
+            for x in part["fs"]:
+                x["nl"] = True
+        if doc[-1]["t"] == "p" and rng.random() < 0.67:
+            doc[-1]["fs"][-1]["nl"] = False
     return doc
 
 
-def record_trace(rng, nops, ops, nnames=5):
-    start = random_start_doc(rng, nnames)
+def record_trace(rng, nops, ops, nnames=5, nl=False, vals=(NEWS, NEWM)):
+    """nl: the document tracks the final newline of every field (C05); vals: value blobs offered to
+    assignments (BAD = a value the setters reject)"""
+    start = random_start_doc(rng, nnames, nl)
     if nnames > 12:
         nops = nops * 4
     conc = Conc(rng, start, names=tuple(range(1, nnames + 1)), unique_seps=True)
     rank = {b.lower(): n for n, b in conc.base.items()}
-    f = parse(conc.start_text(start))
-    init = project(f, conc, rank)
+    info = {"aligned": conc.aligned}
+    f = parse(conc.start_text(start), rng, info)
+    init = project(f, conc, rank, nl)
+    open_end = nl and start[-1]["t"] == "p" and not start[-1]["fs"][-1]["nl"]
     events = []
     rb = {}
     for vid in list(conc.val) + list(conc.new):
@@ -585,11 +832,15 @@ def record_trace(rng, nops, ops, nnames=5):
             if forced[step - nops] > len(paras):
                 break
             op, p = "sort", forced[step - nops]
+        if open_end and rng.random() < 0.5:
+            p = len(paras)      # histories of adds and deletes on the paragraph whose last field has no newline
         n, r = rng.randint(1, nnames), rng.randint(1, nnames)
         par = paras[p - 1] if paras else None
         present = [rank[str(k).lower()] for k in par.keys()] if par is not None else []
         if present and rng.random() < 0.75:
             n = rng.choice(present)
+        if open_end and p == len(paras) and op == "set" and rng.random() < 0.5:
+            n = rng.randint(1, nnames)      # ... more adds than the 1 in 4 of the ordinary histories
         if present and rng.random() < 0.75:
             r = rng.choice(present)
         cnt = present.count(n)
@@ -598,7 +849,9 @@ def record_trace(rng, nops, ops, nnames=5):
         if i < -1:
             i = -1
         e = {"op": op, "p": p, "k": [n, i], "r": [r, ri], "s": rng.choice("UL"),
-             "v": rng.choice([NEWS, NEWM]), "idx": rng.randint(0, len(paras) + 1), "n": n}
+             "v": rng.choice(list(vals)), "idx": rng.randint(0, len(paras) + 1), "n": n}
+        if op == "sortby":
+            e["kt"] = random_key_table(rng, nnames, present)
         if op == "del":
             # never empty a paragraph (outside the property's domain)
             hit = cnt if i == -1 else (1 if 0 <= i < cnt else 0)
@@ -608,16 +861,34 @@ def record_trace(rng, nops, ops, nnames=5):
             continue
         edge = {"op": op, "args": {"get": [p, [n, i]], "set": [p, [n, i], e["s"], e["v"]], "del": [p, [n, i]],
                                    "first": [p, [n, i]], "last": [p, [n, i]], "before": [p, [n, i], [r, ri]],
-                                   "after": [p, [n, i], [r, ri]], "sort": [p], "insert": [e["idx"], n],
-                                   "append": [n]}[op]}
+                                   "after": [p, [n, i], [r, ri]], "sort": [p], "sortby": [p, e.get("kt")],
+                                   "insert": [e["idx"], n], "append": [n]}[op]}
         real = apply_edge(f, edge, conc, rng)
         if isinstance(real, tuple):
             real = rb.get(real[1], "unknown-value:%r" % (real[1],))
         e["res"] = real
-        e["obs"] = project(f, conc, rank)
+        e["obs"] = project(f, conc, rank, nl)
         events.append(e)
     return {"init": init, "events": events, "start_text": conc.start_text(start), "conc": conc.to_json(),
-            "start_model": start}
+            "start_model": start, "input": info}
+
+
+def random_key_table(rng, nnames, present):
+    """key table of a sort key function (kt[n - 1] = key of the name of rank n): mostly WITH ties"""
+    mode = rng.randrange(7)
+    m = rng.choice(present) if present else rng.randint(1, nnames)
+    if mode == 0:
+        return [0 if n == m else 1 for n in range(1, nnames + 1)]          # "m first, leave the rest alone"
+    if mode == 1:
+        return [1 if n == m else 0 for n in range(1, nnames + 1)]          # "m last"
+    if mode == 2:
+        return [nnames - n for n in range(1, nnames + 1)]                  # reversed names, no ties
+    if mode == 3:
+        return [n // 2 for n in range(1, nnames + 1)]                      # buckets in name order
+    if mode == 4:
+        return [7] * nnames                                                # everything ties
+    levels = rng.choice([2, 2, 3, 4])
+    return [rng.randrange(levels) for _ in range(nnames)]
 
 
 def corrupt_trace(t, how):
@@ -630,10 +901,31 @@ def corrupt_trace(t, how):
                 if len(p["fs"]) >= 2 and p["fs"][0] != p["fs"][1]:
                     p["fs"][0], p["fs"][1] = p["fs"][1], p["fs"][0]
                     return t
+        if how == "tie" and e["op"] == "sortby" and e["res"] == "ok" and e["p"] <= len(paras):
+            # two neighbours with EQUAL keys exchanged: still sorted, but not the stable sort
+            fs, kt = paras[e["p"] - 1]["fs"], e["kt"]
+            for j in range(len(fs) - 1):
+                if fs[j] != fs[j + 1] and 1 <= fs[j]["n"] <= len(kt) and 1 <= fs[j + 1]["n"] <= len(kt) \
+                        and kt[fs[j]["n"] - 1] == kt[fs[j + 1]["n"] - 1]:
+                    fs[j], fs[j + 1] = fs[j + 1], fs[j]
+                    return t
         if how == "res" and e["res"] == "KeyError":
             e["res"] = "ok"
             return t
         if how == "comment" and e["op"] == "set" and e["res"] == "ok":
+            for p in paras:
+                for x in p["fs"]:
+                    if x["c"]:
+                        x["c"] = 0
+                        return t
+        if how == "glue" and e["res"] == "ok" and e["op"] in ("set", "del"):
+            # a field that is followed by another one loses its final newline (two fields on one line)
+            for p in paras:
+                if len(p["fs"]) >= 2 and p["fs"][0].get("nl"):
+                    p["fs"][0]["nl"] = False
+                    return t
+        if how == "badset" and e["op"] == "set" and e["res"] == "ValueError":
+            # a rejected assignment that detaches a comment all the same
             for p in paras:
                 for x in p["fs"]:
                     if x["c"]:
@@ -652,7 +944,7 @@ def validate(ctx, traces, with_controls=True):
     import core
     controls = []
     if with_controls:
-        for how in ("swap", "res", "comment", "merge"):
+        for how in ("swap", "res", "comment", "merge", "tie", "glue", "badset"):
             for t in traces:
                 c = corrupt_trace(t, how)
                 if c:
@@ -673,14 +965,16 @@ def validate(ctx, traces, with_controls=True):
     return rejected, info
 
 
-def trace_leg(ctx, ntraces, nops, ops):
+def trace_leg(ctx, ntraces, nops, ops, nl=False, vals=(NEWS, NEWM)):
     import core
+    global WORKDIR
+    WORKDIR = ctx.work
     traces = []
     nbig = max(2, ntraces // 60)          # size stress: a few big documents (30 names, 10+ duplicates, 10 paragraphs)
     for ti in range(ntraces + nbig):
         state = ctx.rng.getstate()
         try:
-            traces.append(record_trace(ctx.rng, nops, ops, nnames=5 if ti < ntraces else 30))
+            traces.append(record_trace(ctx.rng, nops, ops, nnames=5 if ti < ntraces else 30, nl=nl, vals=vals))
         except Exception as ex:
             if not core.raised_by_code_under_test(ex):
                 raise
@@ -691,6 +985,8 @@ def trace_leg(ctx, ntraces, nops, ops):
                               % (type(ex).__name__, traceback.format_exc().strip().splitlines()[-3:]))
     if not traces:
         return
+    for t in traces:
+        note_input_form(ctx, t.get("input") or {})
     rejected, info = validate(ctx, traces)
     ctx.traces += len(traces)
     ctx.evaluations += len(traces)
@@ -707,7 +1003,7 @@ def trace_leg(ctx, ntraces, nops, ops):
         ctx.violation({"kind": "trace", "trace": t, "first_unexplained_event": at + 1},
                       "recorded history not explained by ReproDoc: document %r, event %d %s -> outcome %r, "
                       "state before %s, state after %s"
-                      % (t["start_text"], at + 1, json.dumps({k: ev[k] for k in ("op", "p", "k", "r", "s", "v", "idx", "n")}) if ev else None,
+                      % (t["start_text"], at + 1, json.dumps({k: ev[k] for k in ("op", "p", "k", "r", "s", "v", "idx", "n", "kt") if k in ev}) if ev else None,
                          ev and ev["res"], json.dumps(before, separators=(",", ":")), json.dumps(ev and ev["obs"], separators=(",", ":"))))
     ctx.extra["traces_recorded"] = ctx.extra.get("traces_recorded", 0) + len(traces)
     ctx.extra["traces_rejected"] = ctx.extra.get("traces_rejected", 0) + len(rejected)
@@ -719,6 +1015,7 @@ def replay_trace_case(ctx, case):
     conc = Conc.from_json(t["conc"])
     rank = {b.lower(): n for n, b in conc.base.items()}
     f = parse(t["start_text"])
+    nl = tracks_nl(t["init"])
     rb = {conc.readback(v): str(v) for v in list(conc.val) + list(conc.new)}
     import random
     rng = random.Random(0)
@@ -727,13 +1024,13 @@ def replay_trace_case(ctx, case):
         p, (n, i), (r, ri) = e["p"], e["k"], e["r"]
         edge = {"op": e["op"], "args": {"get": [p, [n, i]], "set": [p, [n, i], e["s"], e["v"]], "del": [p, [n, i]],
                                         "first": [p, [n, i]], "last": [p, [n, i]], "before": [p, [n, i], [r, ri]],
-                                        "after": [p, [n, i], [r, ri]], "sort": [p], "insert": [e["idx"], e["n"]],
-                                        "append": [e["n"]]}[e["op"]]}
+                                        "after": [p, [n, i], [r, ri]], "sort": [p], "sortby": [p, e.get("kt")],
+                                        "insert": [e["idx"], e["n"]], "append": [e["n"]]}[e["op"]]}
         real = apply_edge(f, edge, conc, rng)
         if isinstance(real, tuple):
             real = rb.get(real[1], "unknown-value:%r" % (real[1],))
-        events.append(dict(e, res=real, obs=project(f, conc, rank)))
-    new = {"init": project(parse(t["start_text"]), conc, rank), "events": events}
+        events.append(dict(e, res=real, obs=project(f, conc, rank, nl)))
+    new = {"init": project(parse(t["start_text"]), conc, rank, nl), "events": events}
     rejected, info = validate(ctx, [new], with_controls=False)
     if rejected:
         return "history still not explained by the specification at event %d" % (info.get(1, 0) + 1)
@@ -749,8 +1046,9 @@ def _task(t):
     rng = random.Random(seed)
     conc = Conc(rng, init, names=names, canonical=canonical)
     drifts = []
+    info = {"aligned": conc.aligned}
     try:
-        msg = run_path(init, path, conc, rng, deep_every=deep_every, drifts=drifts)
+        msg = run_path(init, path, conc, rng, deep_every=deep_every, drifts=drifts, info=info)
     except Exception as ex:
         import core
         import traceback
@@ -758,11 +1056,55 @@ def _task(t):
             raise
         msg = "unexpected %s from the library while observing the document: %s" % (
             type(ex).__name__, traceback.format_exc().strip().splitlines()[-3:])
-    return msg, drifts, (conc.to_json() if msg else None)
+    return msg, drifts, (conc.to_json() if msg else None), info
 
 
-def lts_legs(ctx, legs):
-    """legs: list of (cfg, names, edge_budget, nwalks, wlen, nconc).  Model-checks every closed
+def note_input_form(ctx, info):
+    """evidence: which kinds of input object and which block alignments were exercised"""
+    kinds = ctx.extra.setdefault("file_object_kinds", {})
+    if info.get("form"):
+        kinds[info["form"]] = kinds.get(info["form"], 0) + 1
+    al = info.get("aligned")
+    if al:
+        cases = ctx.extra.setdefault("aligned_cases", {"total": 0, "offset": {}, "delta": {}, "unit": {}, "line_end": {},
+                                                       "input": {}})
+        cases["total"] += 1
+        for dim, k in (("offset", al["offset"][:-2]), ("delta", al["offset"][-2:]), ("unit", al["unit"]),
+                       ("line_end", al["line_end"]), ("input", info.get("form", "?"))):
+            cases[dim][k] = cases[dim].get(k, 0) + 1
+
+
+def _emit(ctx, cfg, fast):
+    """TLC run of one closed configuration with EDGE emission.  fast: core's character-by-character
+    reader of printed values dominates the quick tier (0.5 ms per EDGE line, serialized by the GIL over
+    the parallel runs), so the EDGE lines are read from TLC's raw output here - same unescaping rules
+    (backslash + n / t / any other character), by regular expression."""
+    if not fast:
+        return ctx.tlc_must_hold("MC_ReproDoc", cfg, workers=1, want_tags={"EDGE"})
+    import os
+    import re
+    import shutil
+    r = ctx.tlc_must_hold("MC_ReproDoc", cfg, workers=1, want_tags=set(), keep_raw=True)
+    esc = re.compile(r"\\(.)")
+    sub = lambda m: {"n": "\n", "t": "\t"}.get(m.group(1), m.group(1))
+    edges = []
+    head, tail = '<<"EDGE", "', '">>'
+    with open(r.raw_path, errors="replace") as f:
+        for line in f:
+            if line.startswith(head):
+                line = line.rstrip("\n")
+                if line.endswith(tail):
+                    edges.append(json.loads(esc.sub(sub, line[len(head):-len(tail)])))
+    shutil.rmtree(os.path.dirname(r.raw_path), ignore_errors=True)
+    r.printed["EDGE"] = edges
+    return r
+
+
+def lts_legs(ctx, legs, also=(), prefer=None, fast=False):
+    """legs: list of (cfg, names, edge_budget, nwalks, wlen, nconc); also: callables (further TLC
+    runs of the caller, e.g. design-level configurations) executed alongside the emission runs;
+    prefer(edge, depth of its source state): edges replayed first when the budget does not allow all
+    (default: all edges leaving states at depth <= 1); fast: see _emit.  Model-checks every closed
     configuration of ReproDoc (invariants must hold; the runs go in parallel), takes the complete
     LTS of each and replays edges (all, or a seeded sample within the budget) and random walks
     into the real parser (process pool)."""
@@ -771,19 +1113,26 @@ def lts_legs(ctx, legs):
     from multiprocessing import get_context
     from lts import LTS, skey, strip
     rng = ctx.rng
-    with ThreadPoolExecutor(max_workers=len(legs)) as ex:
-        futs = [ex.submit(ctx.tlc_must_hold, "MC_ReproDoc", leg[0], workers=1, want_tags={"EDGE"}) for leg in legs]
+    with ThreadPoolExecutor(max_workers=len(legs) + len(also)) as ex:
+        futs = [ex.submit(_emit, ctx, leg[0], fast) for leg in legs]
+        extra = [ex.submit(fn) for fn in also]
         results = [f.result() for f in futs]
+        for f in extra:
+            f.result()
     stats = ctx.extra.setdefault("lts", {})
     per = ctx.extra.setdefault("edges_per_action", {})
     tasks = []
     meta = []
     for (cfg, names, edge_budget, nwalks, wlen, nconc), r in zip(legs, results):
         edges = r.printed["EDGE"]
-        tos = set(skey(e["to"]) for e in edges if skey(e["to"]) != skey(e["from"]))
+        g0 = LTS(edges, edges[0]["from"]) if fast else None      # fast: state keys are computed once per edge
+        if g0 is not None:
+            tos = set(e["_t"] for e in g0.edges if e["_t"] != e["_f"])
+        else:
+            tos = set(skey(e["to"]) for e in edges if skey(e["to"]) != skey(e["from"]))
         inits, seen = [], set()
-        for e in edges:      # start documents = states without an incoming edge from another state
-            k = skey(e["from"])
+        for e in (edges if g0 is None else g0.edges):      # start documents = states without an incoming edge from another state
+            k = skey(e["from"]) if g0 is None else e["_f"]
             if k not in tos and k not in seen:
                 seen.add(k)
                 inits.append(e["from"])
@@ -791,15 +1140,16 @@ def lts_legs(ctx, legs):
             inits = [edges[0]["from"]]
         total_edges = 0
         for init in inits:
-            g = LTS(edges, init)
+            g = g0 if g0 is not None and len(inits) == 1 and skey(init) == g0.init else LTS(edges, init)
             paths = g.paths()
             reach = [e for e in g.edges if e["_f"] in paths]
             total_edges += len(reach)
             chosen = reach
             budget = max(1, edge_budget // len(inits))
             if len(reach) > budget:
-                near = [e for e in reach if len(paths[e["_f"]]) <= 1]
-                rest = [e for e in reach if len(paths[e["_f"]]) > 1]
+                pref = prefer or (lambda e, depth: depth <= 1)
+                near = [e for e in reach if pref(e, len(paths[e["_f"]]))]
+                rest = [e for e in reach if not pref(e, len(paths[e["_f"]]))]
                 chosen = near[:budget] + rng.sample(rest, max(0, min(len(rest), budget - len(near))))
             for e in chosen:
                 path = paths[e["_f"]] + [e]
@@ -819,9 +1169,12 @@ def lts_legs(ctx, legs):
         for e in edges:
             per[e["op"]] = per.get(e["op"], 0) + 1
     nproc = min(core.NCPU, 12)
+    global WORKDIR
+    WORKDIR = ctx.work          # inherited by the forked workers: real files of parse() live there
     with get_context("fork").Pool(nproc) as pool:
         out = pool.map(_task, tasks, chunksize=64)
-    for t, (key, nontrivial), (msg, drifts, cj) in zip(tasks, meta, out):
+    for t, (key, nontrivial), (msg, drifts, cj, info) in zip(tasks, meta, out):
+        note_input_form(ctx, info)
         ctx.case_seen(key, nontrivial)
         for d in drifts:
             ctx.drift(d)
